@@ -192,6 +192,18 @@ def _default_args(ctx, shape, cplx, which):
     if ctx.sym:
         for i in range(d):
             ctx.eq('%s: default arguments == full sweep (core %d, same trivial factorisations)' % (which, i), t.cores[i], u.cores[i])
+    # a per-bond cap list that does not bind (the current ranks, or larger) is not a truncation: same result as no cap at all
+    for caps in ([1] + [r + 1 for r in shape['ranks'][1:-1]] + [1], list(shape['ranks'])):
+        w = TT(mk_cores(ctx, 'a', shape, cplx))
+        keep = list(caps)
+        if which == 'left':
+            w.ortho_left(max_rank=caps)
+        else:
+            w.ortho_right(max_rank=caps)
+        ctx.check('%s: non-binding cap list %s == no cap (ranks)' % (which, keep), w.ranks == t.ranks, detail='%s vs %s' % (w.ranks, t.ranks))
+        ctx.check('%s: the caller\'s cap list is left unchanged' % which, list(caps) == keep)
+        if w.ranks == t.ranks:
+            ctx.eq('%s: non-binding cap list == no cap (value)' % which, w.full(), t.full(), tol=1e-9)
 
 
 @scenario('C03', 'ortho', _grid)
